@@ -185,7 +185,7 @@ inline bool plausibleMaterial(const ref::Pos& p) {
 // Move counters every FEN reader must carry through unchanged; outside of this
 // range the targets compare nothing about the counters (a reader may ignore or
 // clamp absurd values).
-inline bool clocksSane(long hmc, long fmc) { return hmc >= 0 && hmc <= 1000 && fmc >= 0 && fmc <= 100000; }
+inline bool clocksSane(long hmc, long fmc) { return hmc >= 0 && hmc <= 1000 && fmc >= 0 && fmc <= 50000; } // well inside the ranges the reader accepts ([0,10000) and [0,100000))
 // C17_EXCLUDE_CLOCKS=1 (off by default): keep positions with absurd counters away
 // from move making / searching, so that a campaign can continue past the known
 // finding "readFEN stores any int as half-move clock".
